@@ -184,7 +184,7 @@ def init_language_server(config: Path, generate_on_save: bool, generate_base_pat
         uri = params.text_document.uri
         ls.show_message_log(f"[{TEXT_DOCUMENT_HOVER}] {unquote(uri)}: {row}, {col}")
 
-        cache_entry: TypeReference | None = hover_cache[uri].get(row, {}).get(col, None)
+        cache_entry: TypeReference | None = hover_cache.get(uri, {}).get(row, {}).get(col, None)
         if cache_entry and isinstance(cache_entry, TypeReference) and cache_entry.type_def and cache_entry.type_def.comment:
             return Hover(
                 contents=MarkupContent(
@@ -208,7 +208,7 @@ def init_language_server(config: Path, generate_on_save: bool, generate_base_pat
         row = params.position.line + 1
         col = params.position.character
         ls.show_message_log(f"[{TEXT_DOCUMENT_DEFINITION}] {row}, {col}")
-        cache_entry: TypeReference | None = hover_cache[params.text_document.uri].get(row, {}).get(col, None)
+        cache_entry: TypeReference | None = hover_cache.get(params.text_document.uri, {}).get(row, {}).get(col, None)
         if (cache_entry
                 and isinstance(cache_entry, TypeReference)
                 and cache_entry.type_def
